@@ -436,6 +436,11 @@ __ymcw_add_b(dt_ymcw_t d, int n)
 	signed int aw = n / (signed int)DUWW_BDAYS_P_WEEK;
 	signed int ad = n % (signed int)DUWW_BDAYS_P_WEEK;
 
+	if (UNLIKELY(d.w >= DT_SATURDAY)) {
+		/* the 5-day arithmetic below needs a Mon-Fri start */
+		return __ymcw_add_d(d, __get_d_equiv((dt_dow_t)d.w, n));
+	}
+
 	if ((ad += d.w) > (signed int)DUWW_BDAYS_P_WEEK) {
 		ad -= DUWW_BDAYS_P_WEEK;
 		aw++;
